@@ -53,9 +53,9 @@ class Project:
 	def cache_files(self) -> list[str]:
 		return self.sc.files('.cache')
 
-	def run(self, *, force: bool = True, enabled: bool | None = None, fault: dict[str, Any] | None = None, modules: list[str] | None = None, versions: dict[str, str] | None = None, observe: Any = None, timeout: float = 120.0) -> dict[str, Any]:
+	def run(self, *, force: bool = True, enabled: bool | None = None, fault: dict[str, Any] | None = None, modules: list[str] | None = None, versions: dict[str, str] | None = None, observe: Any = None, timeout: float = 120.0, use_config_globs: bool = False) -> dict[str, Any]:
 		self.processes += 1
-		mods = modules if modules is not None else list(self.pool['modules'])
+		mods = modules if modules is not None else (None if use_config_globs else list(self.pool['modules']))
 		task = tasks.runner_task(mods, force=force, cache_enabled=enabled, versions=versions, observe=observe)
 		rec = sim_process(self.sc.root, task, fault=fault, timeout=timeout)
 		if rec['status'] == 'timeout':
